@@ -276,6 +276,14 @@ def big_Cmp(ex, st, args, ctx):
     return z3.simplify(z3.If(z3.ULT(a, b), bvval(-1, 64), z3.If(a == b, bvval(0, 64), bvval(1, 64))))
 
 
+def big_BitLen(ex, st, args, ctx):
+    x = bigptr(ex, st, args[0]).v
+    L = bvval(0, 64)
+    for k in range(1, BIG + 1):
+        L = z3.If(z3.Extract(k - 1, k - 1, x) == 1, bvval(k, 64), L)
+    return z3.simplify(L)
+
+
 def big_Text(ex, st, args, ctx):
     used('(*math/big.Int).Text(base): canonical digits of the value in that base (numeric-string model)')
     x = bigptr(ex, st, args[0]).v
@@ -431,7 +439,7 @@ def error_Error(ex, st, args, ctx):
 BASE = {
     '(*math/big.Int).Bytes': big_Bytes, '(*math/big.Int).SetBytes': big_SetBytes, '(*math/big.Int).FillBytes': big_FillBytes,
     '(*math/big.Int).SetUint64': big_SetUint64, '(*math/big.Int).SetInt64': big_SetInt64, 'math/big.NewInt': big_NewInt, '(*math/big.Int).Set': big_Set,
-    '(*math/big.Int).Cmp': big_Cmp, '(*math/big.Int).Text': big_Text, '(*math/big.Int).String': big_String, '(*math/big.Int).SetString': big_SetString,
+    '(*math/big.Int).Cmp': big_Cmp, '(*math/big.Int).BitLen': big_BitLen, '(*math/big.Int).Text': big_Text, '(*math/big.Int).String': big_String, '(*math/big.Int).SetString': big_SetString,
     '(*bytes.Buffer).Bytes': buffer_bytes, '(*bytes.Buffer).Write': buffer_Write, 'encoding/binary.Write': binary_Write,
     'github.com/iden3/go-iden3-crypto/keccak256.Hash': keccak_Hash,
     'fmt.Errorf': fmt_Errorf, 'fmt.Sprintf': fmt_Sprintf, 'opaque:error.Error': error_Error,
@@ -450,3 +458,192 @@ def make_stubs(extra=None):
             else:
                 s[k] = v
     return s
+
+
+# ------------------------------------------------------------------------------------------ encoding/json (contract stubs)
+class JsonDoc:
+    """bytes produced by json.Marshal of a value whose Go type has no custom marshaller: an opaque document that
+    json.Unmarshal into the same type restores exactly (mirror-struct round trip contract)"""
+
+    def __init__(self, tid, value):
+        self.tid, self.value = tid, value
+
+
+def deref_type(ex, tid):
+    t = ex.under(tid)
+    return t['elem'] if t['kind'] == 'ptr' else None
+
+
+def find_method(ex, tid, name):
+    return ex.methods.get(ex.tname(tid), {}).get(name)
+
+
+def json_Marshal(ex, st, args, ctx):
+    used('encoding/json.Marshal: calls MarshalJSON when the dynamic type has one; otherwise yields an opaque document that Unmarshal into the same type restores exactly; may not fail for these types')
+    v = args[0]
+    if not isinstance(v, Iface):
+        raise Unsupported('json.Marshal of %r' % (v,))
+    m = find_method(ex, v.t, 'MarshalJSON')
+    if m is not None and m in ex.funcs:
+        return ('tailcall', m, [v.v])
+    val = v.v
+    tid = v.t
+    if isinstance(val, Ptr) and not isinstance(st.heap.get(val.obj), MapVal):
+        tid = deref_type(ex, tid)
+        val = ex.load(st, val)
+    elif isinstance(val, Ptr):
+        val = st.heap[val.obj]
+    o = st.alloc(JsonDoc(tid, snapshot(ex, st, val)))
+    st.events.append(('json.Marshal', tid))
+    return (Slice(o, 0, z3.BitVec(ex.newsym('jsonlen'), 64), 0), NIL)
+
+
+def snapshot(ex, st, v):
+    """deep copy of a value, following slices (so later mutation of the source does not change the document)"""
+    if isinstance(v, Slice):
+        if v.obj is None:
+            return ('slice', 0, [])
+        return ('slice', v.len, [snapshot(ex, st, c) for c in ex.cells(st, v)[:v.hi if not isinstance(v.len, int) else v.len]])
+    if isinstance(v, Struct):
+        return Struct([snapshot(ex, st, f) for f in v.f])
+    if isinstance(v, Array):
+        return Array([snapshot(ex, st, f) for f in v.e])
+    if v is NIL:
+        return ('slice', 0, [])
+    return v
+
+
+def unsnapshot(ex, st, v):
+    if isinstance(v, tuple) and v and v[0] == 'slice':
+        cells = [unsnapshot(ex, st, c) for c in v[2]]
+        o = st.alloc(Array(cells))
+        ln = v[1]
+        return Slice(o, 0, ln, len(cells), 0, len(cells))
+    if isinstance(v, Struct):
+        return Struct([unsnapshot(ex, st, f) for f in v.f])
+    if isinstance(v, Array):
+        return Array([unsnapshot(ex, st, f) for f in v.e])
+    return v
+
+
+HAVOC_BOUND = {'n': 3}
+
+
+def havoc(ex, st, tid, name):
+    """an arbitrary value of a Go type (what a decoder can produce from arbitrary input); slice lengths symbolic within HAVOC_BOUND"""
+    if ex.isbig(tid):
+        return Big(z3.BitVec(ex.newsym(name), BIG))
+    t = ex.under(tid)
+    k = t['kind']
+    if k == 'basic':
+        b = t['basic']
+        if b == 'int':
+            return z3.BitVec(ex.newsym(name), t['bits'])
+        if b == 'bool':
+            return z3.Bool(ex.newsym(name))
+        if b == 'string':
+            return Str(z3.String(ex.newsym(name)))
+    if k == 'struct':
+        return Struct([havoc(ex, st, f['type'], name + '.' + f['name']) for f in t['fields']])
+    if k == 'array':
+        return Array([havoc(ex, st, t['elem'], '%s[%d]' % (name, i)) for i in range(t['len'])])
+    if k == 'slice':
+        cap = HAVOC_BOUND['n']
+        cells = [havoc(ex, st, t['elem'], '%s[%d]' % (name, i)) for i in range(cap)]
+        o = st.alloc(Array(cells))
+        ln = z3.BitVec(ex.newsym(name + '.len'), 64)
+        st.pc.append(z3.ULE(ln, bvval(cap, 64)))
+        return Slice(o, 0, ln, cap, 0, cap)
+    raise Unsupported('havoc of type %s' % ex.tname(tid))
+
+
+def json_Unmarshal(ex, st, args, ctx):
+    used('encoding/json.Unmarshal: calls UnmarshalJSON when the target type has one; restores a document produced by Marshal of the same type; on any other input either fails or yields an arbitrary value of the target type (lengths <= %d)' % HAVOC_BOUND['n'])
+    data, target = args
+    if not isinstance(target, Iface) or not isinstance(target.v, Ptr):
+        raise Unsupported('json.Unmarshal target %r' % (target,))
+    m = find_method(ex, target.t, 'UnmarshalJSON')
+    if m is not None and m in ex.funcs:
+        return ('tailcall', m, [target.v, data])
+    et = deref_type(ex, target.t)
+    doc = st.heap.get(data.obj) if isinstance(data, Slice) and data.obj is not None and not isinstance(data.obj, tuple) else None
+    if isinstance(doc, JsonDoc):
+        if doc.tid == et:
+            ex.store(st, target.v, unsnapshot(ex, st, doc.value))
+            return NIL
+        return Iface(-1, Opaque('error', msg=S('json: cannot unmarshal'), origin=ctx['pos']))
+    c = z3.Bool(ex.newsym('json_decodes'))
+
+    def ok(s2):
+        ex.store(s2, target.v, havoc(ex, s2, et, 'json'))
+        return NIL
+    return Forks([(c, ok, None), (z3.Not(c), Iface(-1, Opaque('error', msg=S('json syntax/type error'), origin=ctx['pos'])), None)])
+
+
+# ------------------------------------------------------------------------------------------ groth16 proof object (C10)
+def validproof_uf(ex):
+    return uf(ex, 'validProofEncoding', z3.BitVecSort(2048), z3.BoolSort())
+
+
+def i_stub_proof(ex, st, args, ctx):
+    n = name_of(args[0])
+    coords = []
+    for i in range(8):
+        v = z3.BitVec('%s.coord[%d]' % (n, i), BIG)
+        st.draws['%s.coord[%d]' % (n, i)] = v
+        coords.append(v)
+    st.pc.append(validproof_uf(ex)(z3.Concat(*coords)))
+    return Opaque('proof', coords=coords)
+
+
+def i_proof_coord(ex, st, args, ctx):
+    return Big(args[0].coords[conc(args[1])])
+
+
+def i_proof_eq(ex, st, args, ctx):
+    a, b = args
+    if getattr(a, 'coords', None) is None or getattr(b, 'coords', None) is None:
+        return z3.BoolVal(False)
+    return z3.simplify(z3.And(*[x == y for x, y in zip(a.coords, b.coords)]))
+
+
+def proof_WriteRawTo(ex, st, args, ctx):
+    used('groth16 Proof.WriteRawTo: 8 x 32-byte big-endian affine coordinates A.x A.y B.x1 B.x0 B.y1 B.y0 C.x C.y (gnark-crypto raw encoding; coordinates < 2^254 so flag bits are 0)')
+    p, w = args
+    cells = []
+    for c in p.coords:
+        cells.extend(byte_cells_of_bv(c, 32))
+    target = w.v if isinstance(w, Iface) else w
+    buffer_write(ex, st, target, new_bytes(ex, st, cells, 256))
+    return (bvval(256, 64), NIL)
+
+
+def proof_ReadFrom(ex, st, args, ctx):
+    used('groth16 Proof.ReadFrom: reads 256 bytes; succeeds iff they are the raw encoding of a valid proof (uninterpreted validity, true for every proof that exists)')
+    p, r = args
+    r = r.v if isinstance(r, Iface) else r
+    data = r.data
+    cells = ex.cells(st, data)
+    if not isinstance(data.len, int) or data.len < 256:
+        raise Unsupported('ReadFrom on short/symbolic buffer')
+    coords = [z3.simplify(z3.Concat(*cells[32 * i:32 * i + 32])) for i in range(8)]
+    ok = validproof_uf(ex)(z3.Concat(*coords))
+
+    def good(s2):
+        p.coords = coords        # Opaque objects are per-path unique enough for our harnesses
+        return (bvval(256, 64), NIL)
+    return Forks([(ok, good, None), (z3.Not(ok), (bvval(0, 64), Iface(-1, Opaque('error', msg=S('invalid point'), origin=ctx['pos']))), None)])
+
+
+def bytes_NewReader(ex, st, args, ctx):
+    return Opaque('bytesreader', data=args[0])
+
+
+def groth16_NewProof(ex, st, args, ctx):
+    return Opaque('proof', coords=None)
+
+
+INTRINSICS.update({'verifStubProof': i_stub_proof, 'verifProofCoord': i_proof_coord, 'verifProofEq': i_proof_eq})
+BASE.update({'encoding/json.Marshal': json_Marshal, 'encoding/json.Unmarshal': json_Unmarshal,
+             'opaque:proof.WriteRawTo': proof_WriteRawTo, 'opaque:proof.ReadFrom': proof_ReadFrom, 'bytes.NewReader': bytes_NewReader,
+             'github.com/consensys/gnark/backend/groth16.NewProof': groth16_NewProof})
